@@ -26,6 +26,8 @@ class MetaRunner(object):
         # queue to store payloads submitted before the runner is started
         self._runner_queues: Dict[ModuleType, Any] = {}
         self.running = threading.Event()
+        # guards the switch from queueing payloads to handing them to the runners
+        self._launch_lock = threading.Lock()
 
     @property
     def runners(self):
@@ -40,18 +42,20 @@ class MetaRunner(object):
 
     def register_payload(self, *payloads, flavour: ModuleType):
         """Queue one or more payloads for execution after its runner is started"""
-        try:
-            runner = self._runners[flavour]
-        except KeyError:
-            if self.running.is_set():
-                raise RuntimeError(f"unknown runner {NameRepr(flavour)}") from None
-            self._runner_queues.setdefault(flavour, []).extend(payloads)
-        else:
-            for payload in payloads:
-                self._logger.debug(
-                    "registering payload %s (%s)", NameRepr(payload), NameRepr(flavour)
-                )
-                runner.register_payload(payload)
+        # Whether to queue is decided under the lock: otherwise the runners could be
+        # launched, and the queues flushed, between the lookup and the decision.
+        with self._launch_lock:
+            runner = self._runners.get(flavour)
+            if runner is None:
+                if self.running.is_set():
+                    raise RuntimeError(f"unknown runner {NameRepr(flavour)}")
+                self._runner_queues.setdefault(flavour, []).extend(payloads)
+                return
+        for payload in payloads:
+            self._logger.debug(
+                "registering payload %s (%s)", NameRepr(payload), NameRepr(flavour)
+            )
+            runner.register_payload(payload)
 
     def run_payload(self, payload, *, flavour: ModuleType):
         """
@@ -84,7 +88,6 @@ class MetaRunner(object):
     async def _manage_runners(self):
         """Manage all runners inside the current `asyncio` event loop"""
         runner_tasks = await self._launch_runners()
-        self.running.set()
         try:
             # wait for all runners to either stop gracefully or propagate errors
             # we only unqueue payloads *while* watching runners as payloads could
@@ -113,7 +116,9 @@ class MetaRunner(object):
             await runner.ready()
         # Publish the runners only now that all of them accept payloads:
         # payloads registered from other threads in the meantime are still queued.
-        self._runners = runners
+        with self._launch_lock:
+            self._runners = runners
+            self.running.set()
         return runner_tasks
 
     async def _unqueue_payloads(self) -> None:
